@@ -501,7 +501,8 @@ def _e_lazy_slots(chk, rule="C20.e", only_classes=None):
                     if not changed:
                         continue
                     n += 1
-                    clears = any(isinstance(st, ast.Assign) and isinstance(st.value, ast.Constant) and st.value.value is None and
+                    # cleared (= None) or rebuilt on the spot: any assignment to the slot alongside counts
+                    clears = any(isinstance(st, ast.Assign) and
                                  any(isinstance(t, ast.Attribute) and t.attr == slot and isinstance(t.value, ast.Name) and t.value.id == "self" for t in st.targets)
                                  for b in eff for st in ast.walk(b))
                     chk.check(clears, rule, f"{m.name}::{cls.name}.{meth.name}[lazy slot self.{slot}]",
